@@ -115,6 +115,12 @@ def run_one(pid: str, tier: str, replay: str | None = None) -> int:
         withhold_unrecognised(check, pid)
     except Exception as exc:
         check.error(f"keyed-locals guard crashed: {type(exc).__name__}: {exc}")
+    if tier == "thorough" and not os.environ.get("QV_NO_SELFTEST"):
+        try:
+            from .selftest.runner import run_selftest
+            run_selftest(check, Repo())
+        except Exception as exc:
+            check.error(f"selftest crashed: {type(exc).__name__}: {exc}\n{traceback.format_exc(limit=4)}")
     if replay:
         try:
             with open(replay, "r", encoding="utf-8") as fh:
